@@ -1,3 +1,10 @@
+//! vf-bp-a: blueprint-level checks on the engine world: account deposit rules (C39) and the
+//! access controller's two-role / timer safety rule (C40).
+
+pub mod c39;
+pub mod c40;
+pub mod util;
+
 pub fn checks() -> Vec<vf_core::Check> {
-    vec![]
+    vec![c39::check(), c40::check()]
 }
